@@ -91,13 +91,14 @@ func (n *Named) Close(name string) error {
 		return errors.New("null pipe must not be closed")
 	}
 
+	closing := n.pipes[name].Pipe
 	n.mutex.Unlock()
 
-	go closePipe(n, name)
+	go closePipe(n, name, closing)
 	return nil
 }
 
-func closePipe(n *Named, name string) {
+func closePipe(n *Named, name string, closing stdio.Io) {
 	time.Sleep(2 * time.Second)
 
 	verifhook.Yield("pipes.closePipe.beforeLock")
@@ -105,7 +106,9 @@ func closePipe(n *Named, name string) {
 
 	// the pipe may already be gone: closed twice, or deleted during the grace
 	// period (this goroutine has no recover, a nil dereference kills the shell)
-	if n.pipes[name].Pipe != nil {
+	// ...or deleted and created again under the same name, in which case the
+	// new pipe is not the one this timer was started for
+	if n.pipes[name].Pipe != nil && n.pipes[name].Pipe == closing {
 		n.pipes[name].Pipe.Close()
 		delete(n.pipes, name)
 	}
